@@ -187,44 +187,67 @@ def check_tlwe_op(chk, v, name, spec):
     key = "%s applies '%s' to every coefficient of all k+1 components" % (name, op)
     problems = []
     K = P(par, "k")
-    comp_ranges = []
+    # every statement applies the operator to the coefficient it writes, from the same (component, position) of the sample
+    # (symbolic, per statement); together the statements visit every (component <= k, position < N) exactly once -- the loop
+    # nests (blocked, unrolled, peeled, any direction) are enumerated for k in 1..3 and N in 1..17
+    from sa import concrete
+    import itertools
+    has_b = False
+    parsed = []
     for p in coef:
-        j = p["loops"][-1]["var"]
         polyref = p["lv"][1][1]          # the polynomial object lvalue: result->a[i]  or *result->b
-        jl = p["loops"][-1]
-        # which component(s): result->a[i] for i in a loop, or result->b (== &a[k])
-        comp = None
-        if polyref[0] == "idx" and polyref[1] == P(res, "a") and len(p["loops"]) == 2:
-            il = p["loops"][0]
-            if polyref[2] == il["var"] and il["lo"] == ZERO and il["step"] == I(1):
-                hi = il["hi"] if il["cmp"] == "<" else sym.add(il["hi"], I(1))
-                comp = ("range", hi, il["var"])
-        elif polyref == sym.idx(P(res, "b"), ZERO) and len(p["loops"]) == 1:
-            comp = ("b", None, None)
-        if comp is None:
+        je = p["lv"][2]
+        if polyref[0] == "idx" and polyref[1] == P(res, "a"):
+            ci = polyref[2]
+        elif polyref == sym.idx(P(res, "b"), ZERO):
+            ci = K
+            has_b = True
+        else:
             problems.append("statement at line %s does not address a component of the result" % p["line"])
             continue
-        # source coordinate
         if sample:
             spoly = sym.subst(polyref, {sym.sym(res): sym.sym(sample)})
-            s_el = sym.idx(sym.fld(spoly, "coefsT"), j)
+            s_el = sym.idx(sym.fld(spoly, "coefsT"), je)
         else:
             s_el = None
         want = fn(s_el, pint)
         if p["op"] != op or p["val"] != want:
             problems.append("line %s: '%s %s %s', expected '%s %s'" % (p["line"], sym.show(p["lv"])[:40], p["op"], sym.show(p["val"])[:40], op, sym.show(want)[:40]))
-        # coefficient range: [0, N) of one of the polynomials involved or params->N
-        okN = jl["lo"] == ZERO and jl["cmp"] == "<" and jl["step"] == I(1) and (
-            jl["hi"] == P(par, "N") or (jl["hi"][0] == "fld" and jl["hi"][2] == "N"))
-        if not okN:
-            problems.append("line %s: coefficient range [%s %s %s) is not [0,N)" % (p["line"], sym.show(jl["lo"]), jl["cmp"], sym.show(jl["hi"])))
-        comp_ranges.append(comp)
-    # components covered: a[0..k) and b, or a[0..k]
-    covered_k = [c[1] for c in comp_ranges if c[0] == "range"]
-    has_b = any(c[0] == "b" for c in comp_ranges)
-    full = (covered_k == [sym.add(K, I(1))] and not has_b) or (covered_k == [K] and has_b)
-    if not full:
-        problems.append("components covered: a[0..%s)%s; expected all k+1" % ([sym.show(x) for x in covered_k], " + b" if has_b else ""))
+            continue
+        parsed.append((p, ci, je))
+    Nt = P(par, "N")
+    if not problems:
+        for kv, nv in itertools.product((1, 2, 3), range(1, 18)):
+            env0 = {K: kv, Nt: nv}
+            for q_ in f.params:
+                if "TLweSample" in q_["t"] or "TorusPolynomial" in q_["t"]:
+                    env0[P(q_["n"], "k")] = kv
+            hits = {}
+            try:
+                for p, ci, je in parsed:
+                    # a polynomial's own N field is the ring degree N of the parameters
+                    nrm = lambda t_: sym.rewrite(t_, {st_: Nt for st_ in sym.subterms(t_) if st_[0] == "fld" and st_[2] == "N"}) if isinstance(t_, tuple) else t_
+                    loops_ = [dict(l_, lo=nrm(l_["lo"]), hi=nrm(l_["hi"])) if "var" in l_ else l_ for l_ in p["loops"]]
+                    for e2 in concrete.iterate(loops_, env0):
+                        if any(not concrete.eval_term(g_, e2) for g_ in p["guards"] if concrete.eval_term(g_, e2) is not None):
+                            continue
+                        cv, jv = concrete.eval_term(ci, e2), concrete.eval_term(je, e2)
+                        if cv is None or jv is None:
+                            raise concrete.NotEvaluable("index %s / %s" % (sym.show(ci), sym.show(je)))
+                        hits[(cv, jv)] = hits.get((cv, jv), 0) + 1
+            except concrete.NotEvaluable as e:
+                # bounds read from the polynomials themselves (result->a[i].N): name them N
+                chk.broken("%s: %s" % (name, e))
+            wantset = {(c_, j_) for c_ in range(kv + 1) for j_ in range(nv)}
+            if set(hits) != wantset or any(c_ != 1 for c_ in hits.values()):
+                miss = sorted(wantset - set(hits))
+                extra = sorted(set(hits) - wantset)
+                dup = sorted(h_ for h_, c_ in hits.items() if c_ > 1)
+                problems.append("with k = %d, N = %d: %s" % (kv, nv, "; ".join(
+                    (["coefficient %d of component %d is never written" % (miss[0][1], miss[0][0])] if miss else []) +
+                    (["coefficient %d of component %d is outside the sample" % (extra[0][1], extra[0][0])] if extra else []) +
+                    (["coefficient %d of component %d is written %d times" % (dup[0][1], dup[0][0], hits[dup[0]])] if dup else []))))
+                break
     chk.require(not problems, "R4", key, where=f.where, ok="%d statement(s): %s" % (
         len(coef), "a[0..k] " if not has_b else "a[0..k) and b"), bad="; ".join(problems)[:500], variant=vn)
     if len(var) == 1:
